@@ -213,10 +213,9 @@ class OperatorMapper:
         elif isinstance(left, str) and not isinstance(right, str):
             expression = func.instr(literal(left), right) > 0
         elif not isinstance(left, str) and isinstance(right, str):
-            if hasattr(left, "contains"):
-                expression = left.contains(right)
-            else:
-                expression = left.like("%" + right + "%")
+            # The exact substring test of the in-memory evaluation: LIKE would read "_" and "%" of the text as wildcards
+            # and ignores letter case on some backends.
+            expression = func.instr(left, literal(right)) > 0
         elif isinstance(left, str) and isinstance(right, str):
             expression = literal(right in left)
         else:
